@@ -88,13 +88,12 @@ Definition law_close_result (s : st) (e : ev) (s' : st) (o : outcome) : bool :=
   | None => true
   end.
 
-(* L3: Closed is entered only with an empty PodGroup index (or re-asserted from a
-   lister that still shows Closed: impossible when the lister is up to date) *)
+(* L3: Closed is entered only with an empty PodGroup index (full strength: no
+   freshness precondition since the repair of syncQueue) *)
 Definition law_closed_only_when_empty (s : st) (e : ev) (s' : st) : bool :=
   forallb (fun q =>
     implb (changed s s' q && bool_decide (sst (srv s') q = Some SClosed))
-          (bool_decide (pgs_of (idx s) q = []) ||
-           (bool_decide (sst (lst s) q = Some SClosed) && negb (fresh s q)))) (names s s').
+          (bool_decide (pgs_of (idx s) q = []))) (names s s').
 
 Definition emitted (s s' : st) : list req := skipn (length (wq s) - 1) (wq s').
 
